@@ -54,3 +54,18 @@ package models
 //@     modifies map(ct)
 //@     invariant ct != nil && fresh(ct)
 //@     invariant forall k string :: has(ct, k) == (seen(k) && has(t, k)) && (has(ct, k) ==> ct[k] == t[k])
+
+// ---------------------------------------------------------------- point.go (C06, C18)
+// Two groupings are the same exactly when they group by the same tag names in the same order AND
+// agree on grouping by measurement. Setters skip an update that compares equal (SetDimensions in
+// package edge), so an Equal that ignores a component makes that component unchangeable: a
+// recorded batch read back with byname=true would keep ByName=false and its group would lose the
+// measurement.
+//@ func (Dimensions).Equal
+//@   props C06 C18
+//@   modifies nothing
+//@   ensures result == (d.ByName == o.ByName && len(d.TagNames) == len(o.TagNames) && (forall i int :: 0 <= i && i < len(d.TagNames) ==> d.TagNames[i] == o.TagNames[i]))
+//@   loop 1
+//@     modifies nothing
+//@     invariant 0 <= _i && _i <= len(d.TagNames)
+//@     invariant forall i int :: 0 <= i && i < _i ==> d.TagNames[i] == o.TagNames[i]
